@@ -121,10 +121,13 @@ def _start_guard(spec):
     max_rss = int(os.environ.get("VERIF_SHARD_MAX_RSS_MB", "12000")) * 1024 * 1024
     max_wall = float(os.environ.get("VERIF_SHARD_MAX_WALL_S", "14400"))
     page = os.sysconf("SC_PAGE_SIZE")
+    parent = os.getppid()
 
     def run():
         while True:
             time.sleep(2.0)
+            if os.getppid() != parent:  # the runner was killed: do not linger as an orphan
+                os._exit(71)
             try:
                 with open("/proc/self/statm") as f:
                     rss = int(f.read().split()[1]) * page
